@@ -9,19 +9,19 @@ def repo_fix_commits():
 
 CHECKS = {
  "C14": ("exploration", "Go race detector over a concurrent multi-instance workload with yield injection, plus cross-checking against sequential runs",
-   "A -race build of the workload runs independent writer/reader instances of all three formats in 2..32 goroutines through yielding sinks/sources, in separate processes for GOMAXPROCS 1,2,4,16; race reports are counted from the detector's log (halt_on_error=0, de-duplicated by library entry-point pair); every goroutine's output is compared with the same job run alone afterwards, and outputs are compared across goroutines, GOMAXPROCS settings and processes. The evidence lists instance runs, boundary calls, observed goroutine switches and distinct interleaving signatures.",
+   "A -race build of the workload runs independent writer/reader instances of all three formats in 2..32 goroutines through yielding sinks/sources, in separate processes for GOMAXPROCS 1,2,4,16; race reports are counted from the detector's log (halt_on_error=0, de-duplicated by library entry-point pair); every goroutine's output is compared with the same job run alone afterwards (instances with failing sinks/sources, retried and abandoned calls run next to and right before the judged ones; two processes run without the interleaving recorder whose atomics would order goroutines for the detector), and outputs are compared across goroutines, GOMAXPROCS settings and processes. The evidence lists instance runs, boundary calls, observed goroutine switches and distinct interleaving signatures.",
    "Schedules are sampled by the Go scheduler; the race detector only sees accesses that happened; no golden digests.", "4 C14"),
  "C10": ("fault_enumeration", "ptrace syscall stepping of the unmodified gxz binary: crash-point and errno-fault enumeration with a directory-state oracle",
-   "For each scenario a record pass lists every file-system syscall touching the scenario directory; the run is then repeated killing the process before and after each of them and failing each with every meaningful errno (once / persistently); after every run the directory and exit status are compared with invariants I1-I6 (data exists in one complete form, input never modified, failed runs leave input and target untouched, success means complete target, no temporary file, failures exit non-zero).",
+   "For each scenario a record pass lists every file-system syscall touching the scenario directory; (absolute and relative file names, truncated inputs cut where exactly one io.Copy buffer is decodable; the stepper's view is cross-checked against strace -f -y; after every killed run the same command is run again in the directory as left) the run is then repeated killing the process before and after each of them and failing each with every meaningful errno (once / persistently); after every run the directory and exit status are compared with invariants I1-I6 (data exists in one complete form, input never modified, failed runs leave input and target untouched, success means complete target, no temporary file, failures exit non-zero).",
    "Crash points = instants between observed syscalls; power-loss durability is out of scope; completeness of observation is self-checked on the record pass; scenario list is a sample in the quick tier and the full consistent product in the thorough tier.", "4 C10"),
  "C15": ("exploration", "model-based runtime monitoring of the gxz binary: generated invocations compared with an executable model, plus xz-utils interop",
-   "Generated argument vectors (short/bundled/long flags in any order, '--', multi-file runs with failing members, stdin/stdout) run in fresh directories; exit status, stdout and the resulting tree are compared with an executable model of the documented semantics (compressed results judged by decoding with the reference and liblzma); round trips for presets 0-9 x both formats check name, content and permission bits; gxz output is read by the xz command and xz-utils output (incl. multi-block, -T2) by gxz.",
+   "Generated argument vectors (plus directories that already hold a file with the temporary output's name) (short/bundled/long flags in any order, '--', multi-file runs with failing members, stdin/stdout) run in fresh directories; exit status, stdout and the resulting tree are compared with an executable model of the documented semantics (compressed results judged by decoding with the reference and liblzma); round trips for presets 0-9 x both formats check name, content and permission bits; gxz output is read by the xz command and xz-utils output (incl. multi-block, -T2) by gxz.",
    "The model is lenient where the statement is silent (-z); xz-utils 5.8.2 CLI and liblzma are optional second opinions (skipped sub-oracles are reported).", "4 C15"),
  "C11": ("exploration", "structure-aware mutation fuzzing with panic, result-range and stall monitors (logical and thread-CPU-time)",
-   "A deterministic mutator derives about a million hostile inputs (quick) from valid seeds of the three formats, including CRC32-resealed container edits and chunk-header rewrites, and feeds them to the xz, xz-SingleStream, LZMA and LZMA2 readers; monitors: recovered panics, 0<=n<=len(p), logical stalls, and a watchdog on per-thread CPU time. The evidence lists the outcome histogram showing how deep the inputs got.",
+   "A deterministic mutator derives about a million hostile inputs (quick) from valid seeds of the three formats, including CRC32-resealed container edits and chunk-header rewrites, a structural container mutator that rebuilds block headers / index / footer with extreme field values and re-seals every CRC32, and feeds them to the xz, xz-SingleStream, LZMA and LZMA2 readers; monitors: recovered panics, 0<=n<=len(p), logical stalls, and a watchdog on per-thread CPU time. The evidence lists the outcome histogram showing how deep the inputs got.",
    "Sampled inputs under the stated dictionary bound; a fatal runtime error (not recoverable) would end the process and is reported by the driver as a violation with the goroutine dump.", "4 C11"),
  "C12": ("exploration", "runtime monitoring of the multi-stream reader against the concatenation law over generated stream lists and paddings",
-   "Files are assembled from a pool of valid streams with every padding length 0..16 in every gap and at the end, leading padding and trailing non-zero bytes; xz.Reader with SingleStream off and on is compared byte for byte with the homomorphism law and the error rules of the statement; liblzma (LZMA_CONCATENATED) gives a second opinion on files expected valid.",
+   "Files are assembled from a pool of valid streams (also chains whose members differ in dictionary size, lc/lp/pb, check and block structure) with every padding length 0..16 in every gap and at the end, leading padding and trailing non-zero bytes; xz.Reader with SingleStream off and on is compared byte for byte with the homomorphism law and the error rules of the statement; liblzma (LZMA_CONCATENATED) gives a second opinion on files expected valid.",
    "Pool and lists are samples; padding values 0..16 are enumerated per gap (full product for lists of up to 3 in the thorough tier).", "4 C12"),
  "C13": ("exploration", "trace monitoring of (len(p), n, err) sequences under generated Read-size schedules and source fragmentations",
    "Every Read result of the xz, LZMA and LZMA2 readers is recorded under buffer-length schedules (1, alternating 0/1, random, edge sizes, large) and source fragmentations (whole, 1 byte, short reads, data with EOF; with and without io.ByteReader); the monitor checks content equality, that EOF is never announced before all data was delivered, and that EOF is stable for three further reads.",
@@ -33,10 +33,10 @@ CHECKS = {
    "A dry run records the sink Write calls of each writer history (xz, .lzma plain and ByteWriter sinks, LZMA2 with flushes; ending in Close, Close); every call index x {once, forever} x {no bytes, partial write} is replayed and the monitor demands: no panic, some call returns an error, all-nil only with a complete valid stream in the sink. Every source offset x {once, forever} is replayed for the xz (incl. SingleStream), .lzma and LZMA2 readers over plain and ByteReader sources; the injected error must surface (errors.Is), never a clean end.",
    "Fault positions are exhaustive per case (byte-writer sinks thinned after call 3000); cases are a sample; internal/ref validates sinks when all calls returned nil.", "4 C09"),
  "C04": ("exploration", "fault injection on stored streams (bit flips, bursts, insertions, deletions, CRC-resealed field edits) with a content/verdict monitor",
-   "For each seed stream every single-bit flip, a burst at every byte, an insertion and a deletion at every offset and every deletion between structural boundaries is read back and the monitor asserts 'never a clean end with different content'; ~50 classes of field-level edits built with an independent container serializer (CRC32s re-sealed) must each be reported as an error, also for check-less streams.",
+   "For each seed stream every single-bit flip, a burst at every byte, an insertion and a deletion at every offset and every deletion between structural boundaries is read back (like io.ReadAll, one byte at a time, for field edits also with buffers ending at block ends; Read is called again after every error) and the monitor asserts 'never a clean end with different content'; ~50 classes of field-level edits built with an independent container serializer (CRC32s re-sealed) must each be reported as an error, as must every single-bit flip inside a CRC32-protected field with the CRC re-sealed unless the strict reference still accepts the file, also for check-less streams.",
    "Seeds are a sample (valid for internal/ref); modifications per seed are enumerated completely for the stated classes.", "4 C04"),
  "C05": ("fault_enumeration", "exhaustive truncation enumeration per stream with a verdict monitor",
-   "Every proper prefix (every cut position) of each stream in the list - .xz (default and SingleStream), raw LZMA2, .lzma in three termination modes, multi-stream .xz - is opened and read; the monitor requires a non-EOF error (constructor errors count only if they are not io.EOF) and that delivered bytes are a prefix of the content; cuts on stream/padding boundaries of multi-stream files must decode cleanly.",
+   "Every proper prefix (every cut position) of each stream in the list - .xz (default and SingleStream), raw LZMA2, .lzma in three termination modes, multi-stream .xz - is opened and read (like io.ReadAll, one byte at a time, and with a buffer the decodable bytes fill exactly; Read is called again after the error and must not report a clean end); the monitor requires a non-EOF error (constructor errors count only if they are not io.EOF) and that delivered bytes are a prefix of the content; cuts on stream/padding boundaries of multi-stream files must decode cleanly.",
    "Exhaustive per stream (see stream_exhaustive in the evidence); the stream list is a sample.", "4 C05"),
  "C06": ("exploration", "runtime monitoring of classic-LZMA writer histories incl. the explicit-size contract, with a reference decoder judging the header",
    "Runs lzma.Writer over all 225 property codes x both matchers and random (config, termination mode, sink kind, data, partition) cases, round-trips through lzma.Reader, compares the 13-byte header with what the independent decoder finds encoded, and for every sized case drives a short-write and a surplus-write history.",
